@@ -1186,10 +1186,9 @@ class SQLGenerator:
                         filter_sql = " AND ".join(filter_conditions)
                         # For count measures, return 1 if condition met, else NULL
                         # COUNT counts non-NULL values, so we need NULL to exclude non-matching rows
-                        if measure.agg == "count":
-                            measure_sql = f"CASE WHEN {filter_sql} THEN 1 ELSE NULL END"
-                        else:
-                            measure_sql = f"CASE WHEN {filter_sql} THEN {base_sql} ELSE NULL END"
+                        # base_sql is "1" for COUNT(*), and the counted expression for COUNT(expr), so that
+                        # rows whose expression is NULL are not counted
+                        measure_sql = f"CASE WHEN {filter_sql} THEN {base_sql} ELSE NULL END"
                     else:
                         measure_sql = base_sql
                 else:
